@@ -4,6 +4,7 @@ import Mathlib.Tactic.NormNum
 import BronVerif.Lemmas.PolyList
 import BronVerif.Lemmas.PolyLagrange
 import BronVerif.Lemmas.PolyMatrix
+import BronVerif.Lemmas.PolyBirkhoff
 /-!
 # C20, polynomial half — property theorems
 
@@ -19,6 +20,7 @@ arbitrary `Nodup` lists: unsorted, large, including or excluding `0`.
 namespace BronVerif.Props.C20Poly
 open BronVerif BronVerif.LinAlg BronVerif.Poly Polynomial
 open BronVerif.Lemmas.PolyList BronVerif.Lemmas.PolyLagrange BronVerif.Lemmas.PolyMatrix
+open BronVerif.Lemmas.PolyBirkhoff
 open scoped BigOperators
 
 section Scalar
@@ -164,6 +166,50 @@ theorem vandermonde_interpolate_partial (xs cs : List F) (hnd : xs.Nodup) (hne :
   | some c =>
     obtain ⟨h1, h2⟩ := hsound c h
     simp only [huniq c h1 h2]
+
+/-- full statement for `birkhoff.Interpolate` (on sorted nodes, with the model's determinant routine
+`LinAlg.det`): a returned coefficient list has `n` entries and satisfies every derivative
+constraint `(d/dx)^{jᵣ} p (xᵣ) = yᵣ` -/
+def birkhoff_cramer_statement (F : Type) [Field F] [DecidableEq F] : Prop :=
+  ∀ (xs : List F) (js : List ℕ) (ys c : List F), js.length = xs.length → ys.length = xs.length →
+    birkhoffSorted LinAlg.det xs js ys = .ok c →
+    c.length = xs.length ∧
+      ∀ r, r < xs.length → Poly.eval (iterDeriv (js.getD r 0) c) (xs.getD r 0) = ys.getD r 0
+
+/-- PARTIAL (Cramer's rule, `Matrix.mulVec_cramer`): if the determinant routine used by the model
+computes `Matrix.det` on `n × n` list matrices (hypothesis `hdet`; for `LinAlg.det` this is the
+forward-elimination theorem of `Props/C20.lean`), then whenever `birkhoff.Interpolate` (model
+`birkhoffSorted`) returns coefficients `c`, they solve the Birkhoff–Vandermonde system
+`B(xs, js) · c = ys`, whose row `r` is `(Phi(0,xᵣ,jᵣ), …, Phi(n-1,xᵣ,jᵣ))`.
+Missing for `birkhoff_cramer_statement`: `hdet` for `LinAlg.det`, and the identification of a row
+of `B` with the functional `c ↦ (d/dx)^{jᵣ} (Σ cₖ Xᵏ) (xᵣ)` (the harness/driver check that identity on
+every answer by direct evaluation instead). -/
+theorem birkhoff_cramer_partial (detF : Mat F → F) (xs : List F) (js : List ℕ) (ys c : List F)
+    (hj : js.length = xs.length) (hy : ys.length = xs.length)
+    (hdet : ∀ m : Mat F, m.length = xs.length → (∀ row ∈ m, row.length = xs.length) →
+      detF m = (toMatrix xs.length m).det)
+    (hok : birkhoffSorted detF xs js ys = .ok c) :
+    c.length = xs.length ∧ mulVec (birkhoffMatrix xs js xs.length) c = ys := by
+  unfold birkhoffSorted at hok
+  simp only at hok
+  split at hok
+  · cases hok
+  · rename_i hne
+    injection hok with hc
+    subst hc
+    refine ⟨by simp, ?_⟩
+    apply cramer_list detF _ ys xs.length _ _ hy hdet hne
+    · simp [birkhoffMatrix, hj]
+    · intro row h
+      unfold birkhoffMatrix at h
+      obtain ⟨i, hi, rfl⟩ := List.mem_iff_getElem.mp h
+      rw [List.getElem_zipWith]
+      simp
+
+example : ∃ c, birkhoffSorted (fun m => entry m 0 0 * entry m 1 1 - entry m 0 1 * entry m 1 0)
+    ([2, 5] : List ℚ) [0, 1] [7, 3] = .ok c := ⟨_, by
+  simp [birkhoffSorted, birkhoffMatrix, phi, iterDeriv, deriv, trim, derivCoeffs, Poly.eval, Poly.nsmul,
+    entry, setColumn]; rfl⟩
 
 end Scalar
 
